@@ -147,6 +147,18 @@ where
         }
 
         #[cfg(fontc_verif)]
+        if fontdrasil::verif::active() && self.persistent_storage.active() {
+            // read back what was just written and compare with the value in memory
+            let ok = std::panic::catch_unwind(std::panic::AssertUnwindSafe(|| {
+                self.persistent_storage
+                    .reader(&self.id)
+                    .map(|mut r| T::read(&mut r) == value)
+                    .unwrap_or(false)
+            }))
+            .unwrap_or(false);
+            fontdrasil::verif::event(|| fontdrasil::verif::Ev::Persisted { id: format!("{:?}", self.id), path: String::from("eq"), ok });
+        }
+        #[cfg(fontc_verif)]
         fontdrasil::verif::event(|| fontdrasil::verif::Ev::Access { write: true, id: format!("{:?}", self.id) });
         *self.value.write() = Some(Arc::from(value));
     }
@@ -253,6 +265,24 @@ where
         }
 
         #[cfg(fontc_verif)]
+        if fontdrasil::verif::active() && self.persistent_storage.active() {
+            // no PartialEq here: what was written must read back to something that writes the same bytes
+            let ok = std::panic::catch_unwind(std::panic::AssertUnwindSafe(|| {
+                let mut first = Vec::new();
+                value.write(&mut first);
+                self.persistent_storage
+                    .reader(&key)
+                    .map(|mut r| {
+                        let mut second = Vec::new();
+                        T::read(&mut r).write(&mut second);
+                        first == second
+                    })
+                    .unwrap_or(false)
+            }))
+            .unwrap_or(false);
+            fontdrasil::verif::event(|| fontdrasil::verif::Ev::Persisted { id: format!("{key:?}"), path: String::from("bytes"), ok });
+        }
+        #[cfg(fontc_verif)]
         {
             fontdrasil::verif::event(|| fontdrasil::verif::Ev::Access { write: true, id: format!("{key:?}") });
             if !self.value.read().contains_key(&key) {
@@ -285,6 +315,18 @@ where
         }
 
         self.set_unconditionally(value);
+        #[cfg(fontc_verif)]
+        if fontdrasil::verif::active() && self.persistent_storage.active() {
+            let ok = std::panic::catch_unwind(std::panic::AssertUnwindSafe(|| {
+                let stored = self.value.read().get(&key).cloned();
+                match (stored, self.persistent_storage.reader(&key)) {
+                    (Some(stored), Some(mut r)) => T::read(&mut r) == *stored,
+                    _ => false,
+                }
+            }))
+            .unwrap_or(false);
+            fontdrasil::verif::event(|| fontdrasil::verif::Ev::Persisted { id: format!("{key:?}"), path: String::from("eq"), ok });
+        }
     }
 }
 
